@@ -4,7 +4,7 @@ tier=$1; shift
 cd "$(dirname "$0")/.."
 [ -d .deps/jsonschema ] || ./setup.sh >/dev/null
 for s in "$@"; do
-  for p in C01 C02 C03 C04 C05 C06 C07 C08 C09 C10 C11 C12 C13 C14 C15 C16 C17 C18 C19 C20; do
+  for p in ${PROPS:-C01 C02 C03 C04 C05 C06 C07 C08 C09 C10 C11 C12 C13 C14 C15 C16 C17 C18 C19 C20}; do
     out=$(VERIF_SEED=$s PYTHONHASHSEED=0 ./check $p $tier 2>&1); rc=$?
     echo "seed=$s $p rc=$rc $(echo "$out" | tail -1)"
     if [ $rc -ne 0 ]; then echo "$out" | grep -E "VIOLATION|INCONCLUSIVE|witness" | head -6; fi
